@@ -77,16 +77,26 @@ def rt__{cls}__{p}(v: {t}) -> bool:
 '''
 
 ALIAS = '''
-def alias__{cls}__{p}(v: {t}) -> bool:
+def alias__{cls}__{p}(v: {t}, w: {t}) -> bool:
   """
-  pre: v == v
+  pre: v == v and w == w
   post: _
   """
   with warnings.catch_warnings(record=True) as rec:
     warnings.simplefilter('always')
     est = metric_learn.{cls}({p}=v)
-  return getattr(est, {target!r}) is v and est.get_params()[{target!r}] is v and \\
-      any(issubclass(w.category, FutureWarning) for w in rec)
+  if not (getattr(est, {target!r}) is v and est.get_params()[{target!r}] is v and
+          any(issubclass(x.category, FutureWarning) for x in rec)):
+    return False
+  # the alias leaves nothing behind: a later set_params on the replacement is what a clone carries
+  est.set_params(**{{{target!r}: w}})
+  try:
+    with warnings.catch_warnings():
+      warnings.simplefilter('ignore')
+      c = clone(est)
+  except Exception:
+    return False
+  return est.get_params()[{target!r}] is w and _same(c.get_params()[{target!r}], w) and _same(getattr(c, {target!r}), w)
 '''
 
 TWIN = '''
@@ -306,6 +316,38 @@ def pickle_case(cname):
   return fn
 
 
+def alias_sequence_case(cname):
+  """NOT decided by CrossHair (a failing clone formats its error message with the estimator's repr, which CrossHair does not get through:
+  measured, 'Unable to meet precondition'): constructor with a deprecated alias, then set_params on the replacement, then clone --
+  the clone carries the value set last (sampled values)"""
+  def fn(ctx):
+    from sklearn.base import clone
+    cls = mahal.classes()[cname]
+    n = 0
+    for p, default in params_of(cls):
+      if p not in ALIASES or (ALIASES[p] == 'n_neighbors' and cname != 'LMNN'):
+        continue
+      target = ALIASES[p]
+      for v, w in ((2, 4), (3, 2), (7, 1)):
+        if target == 'tol':
+          v, w = v / 8.0, w / 16.0
+        with warnings.catch_warnings():
+          warnings.simplefilter('ignore')
+          est = cls(**{p: v})
+          est.set_params(**{target: w})
+          try:
+            c = clone(est)
+            ok = c.get_params()[target] == w and getattr(c, target) == w and est.get_params()[target] == w
+            c2 = clone(c)
+            ok = ok and c2.get_params()[target] == w
+          except Exception:   # noqa
+            ok = False
+        n += 1
+        ctx.require('alias_then_set_params_then_clone_carries_the_last_value', ctx.cond(ok), detail='%s(%s=%r).set_params(%s=%r)' % (cname, p, v, target, w))
+    ctx.require('alias_sequences_run', ctx.cond(True))
+  return fn
+
+
 def cases(tier, seed):
   out = []
   names = list(mahal.ALL17)
@@ -320,6 +362,8 @@ def cases(tier, seed):
                     concrete_only=True, validate=1, cost=1))
     out.append(case('notfitted_%s' % n, notfitted_case(n), FUNCS,
                     'fresh / cloned / failed-fit %s, every public query method' % n, concrete_only=True, validate=1, cost=1))
+    out.append(case('alias_sequence_%s' % n, alias_sequence_case(n), FUNCS,
+                    'deprecated alias in the constructor, set_params on its replacement, clone (3 value pairs per alias; sampled)', concrete_only=True, validate=1, cost=1))
     out.append(case('pickle_%s' % n, pickle_case(n), FUNCS, 'one fitted state, pickle round trip (sampled, C-level)',
                     concrete_only=True, validate=1, cost=1))
   # a value given through set_params is the one the next fit uses (so that a clone behaves identically): decided symbolically by the
